@@ -114,7 +114,8 @@ func (p *parser) ruleList(nested bool) []Item {
 			if nested {
 				return items
 			}
-		case t.T == CDO || t.T == CDC || t.T == Semicolon:
+		case t.T == CDO || t.T == CDC || t.T == Semicolon && nested:
+			// a semicolon at the top level is part of the prelude of a qualified rule (and makes it invalid)
 			p.i++
 		case t.T == AtKeyword:
 			r := p.atRule()
